@@ -235,7 +235,8 @@ def gen_server_script(rng):
                 skip = sid() if rng.random() < 0.6 else \
                     ['list', sid(), sid()]
             data = rng.choice([None, 'd', ['$tuple', 1, 'two'],
-                               {'t': tok[0]}, [1, 2]]) \
+                               {'t': tok[0]}, [1, 2], 0, False, '', [], {},
+                               0.0, ['$tuple']]) \
                 if rng.random() < 0.5 else gen.gen_tree(rng, 3, [8], True)
             ops.append(['emit', tok[0], to, skip,
                         rng.choice(pool + [None]), cb, data])
